@@ -91,6 +91,45 @@ def error_injected(rng):
     return "\n".join(L), where
 
 
+def static_hazard(rng):
+    """class-level initialisation orders that an interpreter can get fatally wrong: a generic class whose static creates its own
+    specialisation, two generic classes whose statics create each other, statics reading statics of classes declared later, static and
+    field initialisers that fail at run time (the failure must be a located diagnostic)"""
+    k = rng.randrange(8)
+    t = rng.choice(["int", "string", "Item", "float"])
+    item = "class Item { public int w = 3; public constructor() -> Item = default; }\n"
+    if k == 0:
+        return item + ("class Node<T> { public static int made = 0; public static Node<T> empty = new Node<T>(); public Node<T> next;\n"
+                       "  public constructor() -> Node<T> { made = made + 1; next = null; return this; }\n"
+                       "  public function isEmpty() -> boolean { return this == empty; } public function count() -> int { return made; } }\n"
+                       "function main() -> void { Node<%s> n = new Node<%s>(); echo(n.isEmpty()); echo(n.count()); Node<Item> m = new Node<Item>(); echo(m.count()); }" % (t, t))
+    if k == 1:
+        return item + ("class PA<T> { public static int na = 0; public static PB<T> partner = new PB<T>(); public constructor() -> PA<T> { na = na + 1; return this; } }\n"
+                       "class PB<T> { public static int nb = 0; public static PA<T> partner = new PA<T>(); public constructor() -> PB<T> { nb = nb + 1; return this; } }\n"
+                       "function main() -> void { PA<%s> a = new PA<%s>(); echo(PA.na); PB<%s> b = new PB<%s>(); echo(1); }" % (t, t, t, t))
+    if k == 2:
+        return ("class Early { public static int a = Late.b + 1; public constructor() -> Early = default; }\n"
+                "class Late { public static int b = %d; public constructor() -> Late = default; }\n"
+                "function main() -> void { echo(Early.a); echo(Late.b); }" % rng.randrange(1, 9))
+    if k == 3:
+        return ("class Bad { public static int z = %d; public static int boom = 10 / (z - z); public constructor() -> Bad = default; }\n"
+                "function main() -> void { echo(1); echo(Bad.boom); }" % rng.randrange(1, 9))
+    if k == 4:
+        return ("class Arr { public static int[] xs = {1, 2, 3}; public static int pick = xs[%d]; public constructor() -> Arr = default; }\n"
+                "function main() -> void { echo(Arr.pick); }" % rng.choice([0, 2, 3, 7]))
+    if k == 5:
+        return ("class F { public int[] xs = {1, 2}; public int y = xs[%d]; public constructor() -> F = default; }\n"
+                "function main() -> void { F f = new F(); echo(f.y); }" % rng.choice([0, 1, 2, 5]))
+    if k == 6:
+        return item + ("class Reg<T> { public static int n = 0; public T held; public static Reg<T> last = null;\n"
+                       "  public constructor(T h) -> Reg<T> { this.held = h; n = n + 1; return this; }\n"
+                       "  public static function make(T h) -> Reg<T> { last = new Reg<T>(h); return last; } }\n"
+                       "function main() -> void { Reg<Item> r = Reg.make(new Item()); echo(r.held.w + Reg.n); Reg<Item> s = Reg.make(new Item()); echo(Reg.n); }")
+    return ("class Self { public static Self only = new Self(); public static int made = 0; public int id = 0;\n"
+            "  public constructor() -> Self { made = made + 1; id = made; return this; } }\n"
+            "function main() -> void { Self s = new Self(); echo(s.id); echo(Self.only.id); echo(Self.made); }")
+
+
 def deep_hierarchy(depth):
     L = ["class D0 { public int f0 = 0; public constructor() -> D0 = default; public virtual function m(int a) -> int { return a; } "
          "public virtual function m(long a) -> int { return 1; } public destructor() -> void { echo(\"~0\"); } }"]
@@ -132,6 +171,11 @@ def run(chk):
     for _ in range(400 if chk.thorough else 90):
         src, where = error_injected(rng)
         progs.append((src, "error-in-" + where))
+    for _ in range(120 if chk.thorough else 24):
+        progs.append((static_hazard(rng), "static-hazard"))
+    import c18 as _c18
+    for _ in range(60 if chk.thorough else 6):
+        progs.append((_c18.stateful_program(rng), "stateful"))
     for d in ([2, 3, 5, 9, 17, 40] if chk.thorough else [3, 9, 24]):
         progs.append((deep_hierarchy(d), "deep-hierarchy"))
     for _fn, o in load_corpus("C12"):
